@@ -652,15 +652,20 @@ def ecatRecv (s : State) (frame : Array Nat) : M State := do
   s ← ctlWrite s ADDR_CTL_FLAG s.flagsInternal
   return { s with ack := msgId }
 
+/-- the state word written by `FPGAEmulator::update_with_sys_time`: bit 1 = current modulation segment,
+bit 2 = current STM segment, bit 3 = the current STM segment holds a single pattern; bit 0 (thermal
+sensor) and the rest are kept -/
+def fpgaStateWord (st curMod curStm stmCycle : Nat) : Nat :=
+  let st := if curMod = 0 then st &&& (65535 - 2) else st ||| 2
+  let st := if curStm = 0 then st &&& (65535 - 4) else st ||| 4
+  if stmCycle = 1 then st ||| 8 else st &&& (65535 - 8)
+
 /-- `FPGAEmulator::update_with_sys_time` followed by the CPU's `read_fpga_state` -/
 def updateWithSysTime (s : State) (t : Nat) : M State := do
   let mw ← s.modSwap.update (gpioIn s) t
   let sw ← s.stmSwap.update (gpioIn s) t
   let s := { s with modSwap := mw, stmSwap := sw }
-  let st := reg s ADDR_FPGA_STATE
-  let st := if s.modSwap.cur = 0 then st &&& (65535 - 2) else st ||| 2
-  let st := if s.stmSwap.cur = 0 then st &&& (65535 - 4) else st ||| 4
-  let st := if reg s (ADDR_STM_CYCLE0 + s.stmSwap.cur) + 1 = 1 then st ||| 8 else st &&& (65535 - 8)
+  let st := fpgaStateWord (reg s ADDR_FPGA_STATE) s.modSwap.cur s.stmSwap.cur (reg s (ADDR_STM_CYCLE0 + s.stmSwap.cur) + 1)
   let s := { s with ctl := s.ctl.setIfInBounds ADDR_FPGA_STATE st }
   let s := readFpgaState s
   return { s with dcSysTime := t }
